@@ -128,6 +128,19 @@ def judge_comp(line, out):
     return bad, d
 
 
+def judge_slen(line, out):
+    s = unhex(line.split()[1])
+    want = CL.snappy_preamble_ref(s)
+    t = out.split()
+    if not t or t[0] not in ("OK", "ERR"):
+        return [f"carquet_snappy_get_uncompressed_length: crash: {out[:100]}"]
+    if want is None and t[0] == "OK":
+        return [f"carquet_snappy_get_uncompressed_length accepts a malformed / overflowing / truncated preamble {s[:6].hex()}: returned {t[1]}"]
+    if want is not None and (t[0] != "OK" or int(t[1]) != want):
+        return [f"carquet_snappy_get_uncompressed_length returns {out} for the preamble {s[:5].hex()} of length {want}"]
+    return []
+
+
 # ----------------------------------------------------------------------------- decoders
 
 def dec_cases(rng, tier):
@@ -320,6 +333,20 @@ def check_compressors(rep, tier, rng, drv, run):
         n = int(line.split()[3])
         if line.split()[1] == "snappy" and head is not None and mv.get(n) is not None and head[:len(mv[n])] != mv[n]:
             rep.tie_broken(f"snappy_write_varint: the implementation's preamble {head[:5].hex()} differs from the model's {mv[n].hex()} for n = {n}", line)
+    # carquet_snappy_get_uncompressed_length: implementation vs format (Python) vs model
+    sl = CL.slen_lines(rng, tier)
+    so_i, sdeaths = CL.run_all(vlib, drv, sl)
+    for case, rc, summ in sdeaths:
+        rep.violation(f"carquet_snappy_get_uncompressed_length: sanitizer report or crash (rc={rc}): {summ}", {"kind": "slen", "case": case})
+    so_m, _ = run_sharded(run, sl)
+    for line, a, b in zip(sl, so_i, so_m):
+        if a == "FAULT died":
+            continue
+        rep.count(line)
+        for m in judge_slen(line, a):
+            rep.violation(m, {"kind": "slen", "case": line, "impl": a})
+        if a.split()[:1] != b.split()[:1] or (a.startswith("OK") and a != b):
+            rep.tie_broken(f"get_uncompressed_length: model {b} / implementation {a}", line)
     # carquet's output through the extracted specification decoder (the property's own oracle)
     sout, p3 = run_sharded(run, spec_lines)
     for pr in p3:
@@ -382,6 +409,8 @@ def replay(path):
         return 1
     if case.split()[0] == "big":
         bad = CL.judge_big(case, out[0])[0]
+    elif case.split()[0] == "slen":
+        bad = judge_slen(case, out[0])
     elif case.split()[0] in ("sdec", "ldec"):
         bad = judge_dec(case, out[0])[0]
     else:
